@@ -15,6 +15,9 @@ func newJSONEncoder(encoder *encoding.EncodeAssembler[any, Value]) encoding.Enco
 	return encoding.EncodeCompilerFunc[any, Value](func(typ reflect.Type) (encoding.Encoder[any, Value], error) {
 		if typ != nil && typ.ConvertibleTo(typeJSONMarshaler) {
 			return encoding.EncodeFunc(func(source any) (Value, error) {
+				if v := reflect.ValueOf(source); v.Kind() == reflect.Pointer && v.IsNil() {
+					return nil, nil
+				}
 				s := source.(json.Marshaler)
 				data, err := s.MarshalJSON()
 				if err != nil {
